@@ -224,7 +224,8 @@ Proof.
   destruct (trim (lf_ty lf) j dj) as [| |j'].
   - discriminate.
   - destruct (veq (lf_def lf) w); [right; split; reflexivity|]. destruct (spec_class j); discriminate.
-  - destruct (val_eqb j' j); [left; reflexivity|discriminate].
+  - destruct (val_eqb j' j); [left; reflexivity|].
+    destruct (negb _ && carry_conflict _ _ _); discriminate.
 Qed.
 
 Lemma cleanup_nonnone sn t dflt w j :
@@ -238,7 +239,8 @@ Proof.
   unfold leaf_class. intros Hc Hst.
   destruct (vr_comments vr) eqn:Ecm; [discriminate|].
   destruct (has_null_enum w) eqn:Een; [discriminate|].
-  destruct (vr_skip_none vr && (is_vnone w && negb (is_vnone (lf_def lf)) || none_loss (top_fill (lf_ty lf)) (lf_ty lf) w)) eqn:E1; [discriminate|].
+  destruct (vr_skip_none vr && (is_vnone w && negb (is_vnone (lf_def lf)) || none_loss (top_fill (lf_ty lf)) (lf_ty lf) w
+                              || sub_none_loss (lf_def lf) w)) eqn:E1; [discriminate|].
   destruct (veq w (lf_def lf) && negb (leaf_stable_b yl (vr_skip_none vr) lf w)) eqn:E8; [discriminate|].
   destruct (N.eqb (skipdef_class yl vr lf w) 0) eqn:Esd; simpl in Hc;
     [apply N.eqb_eq in Esd|apply N.eqb_neq in Esd; congruence].
@@ -255,7 +257,8 @@ Proof.
                                          (reload plain_ok yrepr jrepr dtab ltab (vr_fmt vr) j)
                        end = Some w' /\ veq w' w = true).
   { intros ->. destruct (vr_skip_none vr) eqn:Esn.
-    - simpl in E1. apply orb_false_iff in E1. destruct E1 as [E1 _]. apply negb_false_iff in E1.
+    - simpl in E1. apply orb_false_iff in E1. destruct E1 as [E1 _]. apply orb_false_iff in E1. destruct E1 as [E1 _].
+      apply negb_false_iff in E1.
       unfold dump_entry. simpl. rewrite Esn. destruct (lf_def lf); try discriminate. exists VNone. auto.
     - destruct (dump_entry_class0 vr lf VNone VNone Esd) as [He|[He Hv]].
       + simpl. rewrite Esn. reflexivity.
